@@ -1,0 +1,7 @@
+//go:build verif
+
+package compile
+
+// VerifLNTDecoded reports whether fn's line-number table has been decoded
+// (read-only, unsynchronised: for sequential use).
+func VerifLNTDecoded(fn *Funcode) bool { return fn.lnt != nil }
